@@ -229,17 +229,48 @@ def run_x(out: Outcome, programs, prop, max_cex=8, nshards=None, timeout_s=600, 
         out.notes.append(f"declaration group {pid} does not compile with the real macro: {es[0]['message'][:200]}")
     bad = set(errs.keys())
     if bad:
-        # recompile without the failing groups so that their dumps are not used half-built
-        progs = [p for p in progs if p.pid not in bad]
+        # a rejected declaration group is C09's business (C09 compiles the whole corpus); so that one rejected field cannot hide
+        # the others from THIS property, a rejected single-struct group is retried field by field
+        split = []
+        for p in progs:
+            if p.pid in bad and len(p.structs) == 1 and len(p.structs[0].fields) > 1:
+                st = p.structs[0]
+                for k, f in enumerate(st.fields):
+                    sub = Struct(f"{st.name}x{k}", st.base_bits, [f], default=None, debug=False)
+                    split.append(Program(f"{p.pid}x{k}", enums=p.enums, structs=[sub], props=p.props, note=f"field {f.name} of rejected {p.pid}"))
+        progs = [p for p in progs if p.pid not in bad] + split
         dumps, errs2 = xrun.dump_expansions(work, progs)
-        if errs2:
+        bad2 = set(errs2.keys())
+        if bad2 - {p.pid for p in split}:
             raise Infra("corpus still fails after removing failing groups: " + json.dumps(errs2)[:1500])
-        out.extra["declarations_rejected_by_rustc"] = sorted(bad)
+        if bad2:
+            progs = [p for p in progs if p.pid not in bad2]
+            dumps, errs3 = xrun.dump_expansions(work, progs)
+            if errs3:
+                raise Infra("corpus still fails after removing failing fields: " + json.dumps(errs3)[:1500])
+        out.extra["declarations_rejected_by_rustc"] = sorted(bad | bad2)
+        if split:
+            out.notes.append(f"{len(split) - len(bad2)} fields of rejected declarations were verified one by one")
     xrun.bind_rawnames(progs, dumps)
     ann0 = xrun.annotate(work, progs, dumps, {})          # inventory only (no contracts) to learn what exists
     sel = {}
     missing_fn = []
     api_items = []
+    if prop == "C06":
+        from . import inv as INV
+        bad_pids = set()
+        for p in progs:
+            for st in p.structs:
+                if st.name not in ann0:
+                    continue
+                for name, ok, detail in INV.shell_obligations(st, ann0[st.name][1]):
+                    ob = f"{prop}/api/{p.pid}/{name}"
+                    out.add_ob(ob, "inventory", "annotator inventory of the real expansion vs. declaration table", ok)
+                    if not ok:
+                        bad_pids.add(p.pid)
+                        api_items.append({"obligation": ob, "detail": detail, "program_text": p.decl_text(), "inputs": None, "src": None,
+                                          "verifier_output": {"inventory": detail}})
+        progs = [p for p in progs if p.pid not in bad_pids]
     if prop in ("C07", "C10"):
         from . import inv as INV
         bad_pids = set()
